@@ -4,7 +4,9 @@ From BC Require Import Store.Engine.
 From Coq Require Import Ascii String.
 Open Scope string_scope.
 
-Inductive sop := Op (o : op) | Dump | Ls | Cat | DropHints.
+(* [FailAppend o kept]: the put or delete o, whose append failed after the timestamp had been read; [kept]: its whole
+   record is still in the write buffer (the failing call was the final flush), otherwise what was buffered is lost or junk *)
+Inductive sop := Op (o : op) | Dump | Ls | Cat | DropHints | FailAppend (o : op) (kept : bool).
 
 Definition render_data (es : list entry) : bytes := List.concat (List.map enc_entry es).
 Definition render_hints (hs : list hint) : bytes := List.concat (List.map enc_hint hs).
@@ -41,22 +43,31 @@ Definition show_out (o : out) : string :=
 
 Definition drop_hints (d : dir) : dir := List.map (fun '(id, f) => (id, mkFile (d_data f) None)) d.
 
-Fixpoint run_script (c : cfg) (s : st) (ops : list sop) : list string :=
+Definition retained_of (s : st) (o : op) (kept : bool) : option entry :=
+  if kept then match o with
+               | OSet k v => Some (mkEntry (s_clock s) k (Some v))
+               | ODel k => Some (mkEntry (s_clock s) k None)
+               | _ => None
+               end
+  else None.
+
+Fixpoint run_script (c : cfg) (s : st) (r : option entry) (ops : list sop) : list string :=
   match ops with
   | [] => ["end"]
-  | Op o :: ops' => let '(s', r, _) := step c s o in show_out r :: run_script c s' ops'
-  | Dump :: ops' => show_dump s :: run_script c s ops'
-  | Ls :: ops' => ("ls " ++ show_ls false (s_dir s)) :: run_script c s ops'
-  | Cat :: ops' => ("cat " ++ show_ls true (s_dir s)) :: run_script c s ops'
+  | Op o :: ops' => let '(s', r', o', _) := step_r c s r o in show_out o' :: run_script c s' r' ops'
+  | FailAppend o kept :: ops' => "err" :: run_script c (after_failed_append s (s_clock s + 1)%Z) (retained_of s o kept) ops'
+  | Dump :: ops' => show_dump s :: run_script c s r ops'
+  | Ls :: ops' => ("ls " ++ show_ls false (s_dir s)) :: run_script c s r ops'
+  | Cat :: ops' => ("cat " ++ show_ls true (s_dir s)) :: run_script c s r ops'
   | DropHints :: ops' =>
     match open (drop_hints (s_dir s)) (s_clock s) with
-    | ROk (s', _, _) => "ok" :: run_script c s' ops'
-    | _ => "panic" :: run_script c s ops'
+    | ROk (s', _, _) => "ok" :: run_script c s' None ops'
+    | _ => "panic" :: run_script c s r ops'
     end
   end.
 
 Definition render_case (c : cfg) (ops : list sop) : string :=
-  join nl ("open ok" :: run_script c init ops).
+  join nl ("open ok" :: run_script c init None ops).
 
 Definition render_cases (cases : list (cfg * list sop)) : string :=
   join nl (List.map (fun '(c, ops) => render_case c ops) cases).
